@@ -4,7 +4,7 @@ import json, os
 HERE = os.path.dirname(os.path.abspath(__file__))
 RB = ['decoder->bit_stream_reader']
 
-def lhnew(name, method_file, tiers, extra_defs=(), props_extra=()):
+def lhnew(name, method_file, tiers, extra_defs=(), props_extra=(), big=None):
     base_defs = ['VG_METHOD_FILE="%s"' % method_file] + list(extra_defs)
     P = ['C09'] + list(props_extra)
     G = []
@@ -77,6 +77,20 @@ def lhnew(name, method_file, tiers, extra_defs=(), props_extra=()):
     g('lha_lh_new_init', 'h_init', enforce='lha_lh_new_init', replace=['init_ring_buffer'], defs=['VG_INLINE_INIT_TREE'],
       cbmc_flags=['--unwind', '1030', '--unwinding-assertions'], timeout=900, loop_contracts=False)
     g('dtype', 'h_dtype', route='plain', props=P + ['C14'])
+    if big:
+        red = ['VG_OB=%d' % big['ob'], 'VG_NC=%d' % big['nc'], 'VG_LHARK=%d' % big['lhark']]
+        g('params', 'h_params', route='plain', defs=red)
+        # ring-touching functions: SAT cannot carry >= 64 KiB arrays; prove them at the REAL size on the SMT route
+        G[:] = [x for x in G if x['id'] not in ('%s.output_byte' % name, '%s.copy_from_history' % name, '%s.lha_lh_new_read' % name)]
+        g('output_byte', 'h_output_byte_hm', route='plain', defs=['VG_HARNESS_MODE'], backend=['cvc5', 'z3'], timeout=600,
+          functions=['output_byte'], note='real ring size; contract checked around the real call (loop-free), quantifier-free on SMT; assigns frame checked by explicit unchanged-assertions')
+        for x in G:
+            if x['id'] == '%s.copy_from_history.func' % name:
+                x['props'] = ['C01', 'C09', 'C13']
+                x['note'] = 'real ring size: memory safety (bounds/pointer checks on), termination variant and LZ77 semantics of the copy loop in one harness-mode group (legacy loop contract, SMT)'
+        g('lha_lh_new_read', 'h_read', enforce='lha_lh_new_read', timeout=900, defs=red + ['VG_REDUCED_RING'],
+          replace=['start_new_block', 'read_code', 'output_byte', 'copy_from_history'] + (['lhark_decode_copy_count'] if big['lhark'] else []),
+          note='REDUCED RING (HISTORY_BITS 14, real OFFSET_BITS/NUM_CODES): this function never indexes the ring itself; parametricity in HISTORY_BITS is an unchecked assumption (DESIGN.md section 2 item 7)')
     return dict(unit=name, harness='harness/h_lhnew.c', groups=G)
 
 def write(d):
@@ -84,5 +98,6 @@ def write(d):
 
 if __name__ == '__main__':
     write(lhnew('lh5', 'lib/lh5_decoder.c', ['quick', 'thorough']))
-    for nm in ('lh6', 'lh7', 'lhx', 'lk7'):
-        write(lhnew(nm, 'lib/%s_decoder.c' % nm, ['thorough']))
+    for nm, big in (('lh6', dict(ob=5, nc=510, lhark=0)), ('lh7', dict(ob=5, nc=510, lhark=0)),
+                    ('lhx', dict(ob=5, nc=510, lhark=0)), ('lk7', dict(ob=6, nc=289, lhark=1))):
+        write(lhnew(nm, 'lib/%s_decoder.c' % nm, ['thorough'], big=big))
